@@ -10,7 +10,11 @@
      wb     number of events in the write buffer
      ths    threads: (kind-independent program counter, argument)
             the argument is: for a spawner at SCas the index of the task it spawned;
-            for a task its token (0/1).
+            for a task its token (0/1).  A thread's argument is 0 only while it is a writer or CleanUp
+            caller that has not spawned yet, or a task whose token is still free: a spawner leaves SCas
+            with argument 1, so that a task which later became a spawner itself and finished is never
+            mistaken for one with a free token (the first version reset the argument to 0 there; the
+            sched engine's scripted schedule 1 showed the model unlocking where the code does not).
    Threads never disappear: finished ones sit at Done, so indices are stable.  No proofs here. *)
 From stdpp Require Import gmap.
 From Coq Require Import List.
@@ -108,8 +112,8 @@ Definition dstep (s : dstate) (i : nat) : option dstate :=
           Some (mk ds lock wb (set_nth i (SCas, length ths) ths ++ [(DTry, 0)]))
       | SCas =>
           match nth_error ths a with
-          | Some (tp, 0) => Some (mk ds lock wb (set_nth i (SUnlock, 0) (set_nth a (tp, 1) ths)))
-          | _ => go ds lock wb Done 0             (* the task took the token: the lock is now the task's *)
+          | Some (tp, 0) => Some (mk ds lock wb (set_nth i (SUnlock, 1) (set_nth a (tp, 1) ths)))
+          | _ => go ds lock wb Done 1             (* the task took the token: the lock is now the task's *)
           end
       | SUnlock => go ds false wb Done a
       | DTry => if lock then go ds lock wb DCas a else go ds true wb MStore a
